@@ -6,6 +6,7 @@ import (
 	"os"
 	"strconv"
 	"strings"
+	"unicode/utf8"
 )
 
 const (
@@ -312,7 +313,7 @@ func (ts *tokenScanner) Cur() Token {
 	case Ident:
 		tok.Type = IDENT
 		tok.Text = ts.s.TokenText()
-		if kw, isKw := keywords[strings.ToUpper(ts.s.TokenText())]; isKw {
+		if kw, isKw := keywordOf(ts.s.TokenText()); isKw {
 			tok.Type = kw
 		}
 	case Int:
@@ -329,7 +330,7 @@ func (ts *tokenScanner) Cur() Token {
 		}
 	default:
 		tok.Text = ts.s.TokenText()
-		if kw, isKw := keywords[strings.ToUpper(ts.s.TokenText())]; isKw {
+		if kw, isKw := keywordOf(ts.s.TokenText()); isKw {
 			switch {
 			case kw == BANG && ts.s.Peek() == '=':
 				tok.Type = NEQ
@@ -356,6 +357,20 @@ func (ts *tokenScanner) Cur() Token {
 		}
 	}
 	return tok
+}
+
+// keywordOf returns the keyword that text spells in any letter case. Only
+// ASCII letters are folded: Unicode upper-casing maps the dotless i (U+0131)
+// to I and the long s (U+017F) to S, which would turn identifiers such as
+// "lımıt" or "ſet" into keywords.
+func keywordOf(text string) (TokenType, bool) {
+	for i := 0; i < len(text); i++ {
+		if text[i] >= utf8.RuneSelf {
+			return 0, false
+		}
+	}
+	kw, isKw := keywords[strings.ToUpper(text)]
+	return kw, isKw
 }
 
 // unquote strips the quotes of a quoted token. ok is false if the token is not
